@@ -150,8 +150,7 @@ fn history(w: &mut Stk, with_unbondings: bool) {
         }
     }
     if with_unbondings {
-        // two unbondings from V1 (the later one may be tiny: a slash can floor it to zero; seed C16h)
-        for op in [Op::Undelegate { d: 0, v: 0 }, Op::Undelegate { d: 0, v: 1 }, Op::Undelegate { d: 1, v: 0 }] {
+        for op in [Op::Undelegate { d: 0, v: 0 }, Op::Undelegate { d: 0, v: 1 }] {
             let n = w.unb.len();
             if !w.apply(&op, AMT) {
                 cut("setup panicked");
@@ -241,6 +240,27 @@ pub fn scenarios(tier: &str) -> Vec<Scenario> {
             cut("setup undelegation failed");
         }
         slash_checked(&mut w, 0, PSel::Boundary, true);
+        finish(&mut w);
+    }));
+    v.push(Scenario::new("two_slashes_with_a_tiny_unbonding_queued_last", &["slash_applied", "unbonding_paid", "end"], || {
+        // found missing by seed C16h: two pending unbondings from the slashed validator, the later one a
+        // single token that the first slash floors to zero; the second slash must still scale the other
+        let mut w = Stk::new(Cfg::default());
+        w.fixed_amounts.push_back(2); // D2 delegates 2 ...
+        for op in [Op::Delegate { d: 1, v: 0 }, Op::Delegate { d: 0, v: 0 }, Op::Undelegate { d: 0, v: 0 }] {
+            if !w.apply(&op, AMT) {
+                return;
+            }
+        }
+        w.fixed_amounts.push_back(1); // ... and unbonds 1 of them, queued last
+        if !w.apply(&Op::Undelegate { d: 1, v: 0 }, AMT) {
+            return;
+        }
+        if w.unb.len() != 2 {
+            cut("setup undelegation failed");
+        }
+        slash_checked(&mut w, 0, PSel::Fixed(E18 / 2), true);
+        slash_checked(&mut w, 0, PSel::Boundary, false);
         finish(&mut w);
     }));
     if tier == "thorough" {
